@@ -318,7 +318,17 @@ N_STAGES = len(STAGES)
 N_FAULTS = len(FAULTS)
 
 
-def _fallback(stage, fault, x):
+# targets of the fall-back harnesses: (callable, positional args after x, keywords)
+FALLBACK_TARGETS = [
+    ('fn', lambda: T.fn, (2,), {'k': 1}),
+    ('callable_obj', lambda: T.OBJ, (2,), None),
+    ('bound', lambda: T.OBJ.meth, (), {'b': 2}),
+    ('cmeth', lambda: T.K.cmeth, (2,), None),
+    ('lam', lambda: T.lam, (), None),
+]
+
+
+def _fallback(stage, fault, x, target=0):
   mod, attr = STAGES[stage]
   exc = FAULTS[fault]
   orig = getattr(mod, attr)
@@ -341,12 +351,16 @@ def _fallback(stage, fault, x):
   ag_logging.warning = warning
   api.logging.warning = warning
   try:
-    direct = rt.obs(T.fn, (x, 2), None, {'k': 1})
-    first = rt.obs(lambda: api.converted_call(T.fn, (x, 2), {'k': 1}, options=CALLEE_OPTS), ())
+    _, get, more, kw = FALLBACK_TARGETS[target]
+    tgt = get()
+    args = (x,) + more
+    direct = rt.obs(tgt, args, None, kw)
+    first = rt.obs(lambda: api.converted_call(get(), args, kw, options=CALLEE_OPTS), ())
     entered = calls[0]
     w1 = warns[0]
-    cached = conversion.is_in_allowlist_cache(T.fn, CALLEE_OPTS)
-    second = rt.obs(lambda: api.converted_call(T.fn, (x, 2), {'k': 1}, options=CALLEE_OPTS), ())
+    # "the failure is remembered": for the callable that was passed, whatever its kind
+    cached = conversion.is_in_allowlist_cache(get(), CALLEE_OPTS)
+    second = rt.obs(lambda: api.converted_call(get(), args, kw, options=CALLEE_OPTS), ())
     ok = (rt.same_obs(direct, first) and rt.same_obs(direct, second) and entered == 1
           and w1 == 1 and cached and calls[0] == 1 and warns[0] == 1)
   finally:
@@ -358,14 +372,14 @@ def _fallback(stage, fault, x):
 
 
 def make_fallback(stage):
-  def h(fault: int, x: int) -> bool:
+  def h(fault: int, x: int, target: int) -> bool:
     """
-    pre: 0 <= fault < 7 and 1 <= x <= 3
+    pre: 0 <= fault < 7 and 2 <= x <= 3 and 0 <= target < 5
     post: _
     """
-    v = deep_realize((fault, x))
+    v = deep_realize((fault, x, target))
     with NoTracing():
-      return _fallback(stage, v[0], v[1])
+      return _fallback(stage, v[0], v[1], v[2])
 
   h.__name__ = h.__qualname__ = 'fallback_%02d_%s_%s' % (
       stage, STAGES[stage][0].__name__.split('.')[-1], STAGES[stage][1])
@@ -401,5 +415,6 @@ def explain(func, args, kwargs):
         kind, tuple(args[:3]), STATUSES[args[3]].name, expected_conversion(kind, *args))
   if func.startswith('fallback_'):
     mod, attr = STAGES[int(func.split('_')[1])]
-    return 'fault %s injected in %s.%s, x=%r' % (FAULTS[args[0]].__name__, mod.__name__, attr, args[1])
+    return 'fault %s injected in %s.%s, x=%r, target kind=%s' % (
+        FAULTS[args[0]].__name__, mod.__name__, attr, args[1], FALLBACK_TARGETS[args[2]][0] if len(args) > 2 else 'fn')
   return 'call shape %s values %r' % (func, args)
